@@ -119,7 +119,11 @@ func (h *hist) oneOp() {
 		}
 		h.c.Count("op/check", 1)
 	case c < 70:
-		h.opReport()
+		if h.r.Intn(2) == 0 {
+			h.opReportDeep()
+		} else {
+			h.opReport()
+		}
 	case c < 74:
 		h.opRestart()
 	case c < 80:
